@@ -145,10 +145,22 @@ type lockAccess struct {
 // isWriteUse reports whether the address produced by fa is written through
 // (store, or map mutation / append-assign of the loaded value).
 func isWriteUse(fa *ssa.FieldAddr) bool {
+	return isWriteUseAddr(fa, 0)
+}
+
+func isWriteUseAddr(fa ssa.Value, depth int) bool {
 	for _, ref := range *fa.Referrers() {
 		switch x := ref.(type) {
 		case *ssa.Store:
 			if x.Addr == fa {
+				return true
+			}
+		case *ssa.FieldAddr: // a part of a struct kept by value in the guarded field is written
+			if x.X == fa && depth < 4 && isWriteUseAddr(x, depth+1) {
+				return true
+			}
+		case *ssa.IndexAddr: // an element of an array kept by value in the guarded field
+			if x.X == fa && depth < 4 && isWriteUseAddr(x, depth+1) {
 				return true
 			}
 		case *ssa.UnOp: // load: a map mutation on the loaded value counts as a write
